@@ -93,6 +93,23 @@ class SymBool(object):
     def __invert__(self):
         return SymBool(z3.Not(self.t))
 
+    # a bool used as an integer (e.g. `days += is_leap`)
+    def _as_int(self):
+        return SymInt(z3.If(self.t, z3.IntVal(1), z3.IntVal(0)))
+
+    def __add__(self, o):
+        return self._as_int() + o
+    __radd__ = __add__
+
+    def __eq__(self, o):
+        if isinstance(o, SymBool):
+            return SymBool(self.t == o.t)
+        if isinstance(o, bool):
+            return SymBool(self.t == z3.BoolVal(o))
+        return self._as_int() == o
+
+    __hash__ = None
+
 
 def _liftb(v):
     if isinstance(v, SymBool):
